@@ -98,7 +98,7 @@ func runC11(c *vkit.Ctx, plain, trim *Program, foreign []string, absDir string, 
 	scn := &Scenario{Nodes: map[string]*Node{}, Roots: roots, NoClean: true}
 	nontrivial := pkg != ""
 	dirs := []string{"", "", "snaps_rel", "snaps_nested/a/b", absDir}
-	subs := []string{"b", "c d", "x1", "b#01", "ü", "100%", "x/y", "Sub10"}
+	subs := []string{"b", "c d", "x1", "b#01", "ü", "100%", "x/y", "Sub10", "v1.2", "input.json", "ratio=0.5"}
 	nt := 1 + r.IntN(3)
 	if nt > len(tops) {
 		nt = len(tops)
